@@ -19,7 +19,7 @@
 #ifdef VF_S9_PROPOSED_FIX
 // NOT used by any registered kernel: the minimal source change proposed for suspect S9 (swap
 // getNCols()/getNRows()), to confirm that the checks pass on the corrected code
-// (python3-vt vf/kernel_run.py C11.a.wide quick 0 VF_S9_PROPOSED_FIX).
+// (python3-vt vf/kernel_run.py C11.a quick 0 VF_S9_PROPOSED_FIX).
 #include "Basic/VectorHelper.hpp"
 void AMatrixDense::multiplyRow(const VectorDouble& vec)
 {
